@@ -418,7 +418,7 @@ func (s *c19Scn) feedSrv(kind, veto, start string) {
 	case "cno":
 		b = []byte("sz: cannot open /nonexistent: No such file or directory\r\n" + tok)
 	case "probe":
-		b = []byte("probe " + tok + "\r\n")
+		b = []byte("\r\nprobe " + tok)
 	}
 	switch veto {
 	case "can":
